@@ -1,8 +1,8 @@
 SPECIFICATION TSpec
 CONSTANTS
   Callers = {"k1","k2","k3"}
-  Reqs = {"r1","r2","r3","r4","s1","s2","n1","n2","n3","x1","x2","x3","x4","y1","y2","d1","d2"}
-  CallReqs = {"r1","r2","r3","r4","s1","s2","d1","d2"}
+  Reqs = {"r1","r2","r3","r4","s1","s2","p1","p2","n1","n2","n3","x1","x2","x3","x4","y1","y2","d1","d2"}
+  CallReqs = {"r1","r2","r3","r4","s1","s2","p1","p2","d1","d2"}
   CancelOf <- TraceCancelOf
   DupOf <- TraceDupOf
   Closers = {"c1","c2"}
